@@ -183,6 +183,35 @@ def run_case(c):
                             res.violation('lists:broadcast', 'hist_bins(%s, channels=%r, nbins=%r, scale=%r) differs from the per-channel answers' % (st, chans, nb1, sc1), one)
                         else:
                             res.ok('lists:broadcast', True)
+            # a channel mentioned twice in one request, each time with its own bin count / scale; the caller's lists come back unchanged and
+            # can be reused on another channel group (None entries still mean "the channel's own resolution")
+            for chans, nbl, scl in ((['CH1', 'CH1'], [None, 16], 'linear'), ([0, 'CH1', 0], [7, None, 100], ['linear', 'log', 'logicle']),
+                                    ([2, 2], 32, ['linear', 'log']), (['CH2', 1], [None, None], ['logicle', 'linear'])):
+                idx = [ch if isinstance(ch, int) else names.index(ch) for ch in chans]
+                nb_arg = list(nbl) if isinstance(nbl, list) else nbl
+                sc_arg = list(scl) if isinstance(scl, list) else scl
+                what = 'hist_bins(%s %r, channels=%r, nbins=%r, scale=%r)' % (st, rs, chans, nbl, scl)
+                try:
+                    got = d.hist_bins(list(chans), nb_arg, sc_arg)
+                    per = [d.hist_bins(j, nbl[k] if isinstance(nbl, list) else nbl, scl[k] if isinstance(scl, list) else scl) for k, j in enumerate(idx)]
+                except Exception as e:
+                    res.violation('lists:repeated-raises:%s' % type(e).__name__, '%s raised %s: %s' % (what, type(e).__name__, e), one)
+                    continue
+                if not (isinstance(got, list) and len(got) == len(idx) and all(np.array_equal(np.asarray(g), np.asarray(p_)) for g, p_ in zip(got, per))):
+                    res.violation('lists:repeated-channel', '%s differs from the per-channel answers' % what, one)
+                    continue
+                if (isinstance(nbl, list) and nb_arg != nbl) or (isinstance(scl, list) and sc_arg != scl):
+                    res.violation('lists:argument-changed', '%s changed the caller\'s nbins / scale list to %r / %r' % (what, nb_arg, sc_arg), one)
+                    continue
+                if isinstance(nbl, list):
+                    # the same list object again, on the other channels
+                    other = [(j + 1) % 3 for j in idx]
+                    got2 = d.hist_bins(other, nb_arg, sc_arg)
+                    per2 = [d.hist_bins(j, nbl[k], scl[k] if isinstance(scl, list) else scl) for k, j in enumerate(other)]
+                    if not all(np.array_equal(np.asarray(g), np.asarray(p_)) for g, p_ in zip(got2, per2)):
+                        res.violation('lists:reused-argument', '%s, then the same nbins list on channels %r: differs from the per-channel answers' % (what, other), one)
+                        continue
+                res.ok('lists:repeated', True)
             for bad in ('lin', 'LOG', '', 'logit', None):
                 try:
                     d.hist_bins(0, 10, bad)
